@@ -144,7 +144,7 @@ def model_check_batch(ctx, invariants, expect_violation_with_devs=None, live=Tru
     inv_line = "INVARIANTS " + " ".join(invariants)
     shapes = [(1, 1, 1, 1, 1, 1, 99), (2, 1, 2, 1, 0, 1, 99)]
     if thorough:
-        shapes += [(1, 2, 2, 1, 1, 1, 99), (2, 1, 1, 1, 1, 1, 99), (1, 2, 2, 2, 1, 2, 1), (1, 1, 1, 1, 2, 1, 99)]
+        shapes += [(1, 2, 2, 1, 1, 1, 99), (1, 1, 1, 1, 2, 1, 99), (2, 1, 1, 1, 1, 1, 1)]
     for variant in ("span", "log"):
         for (np_, nr, q, b, nf, ns, bud) in shapes:
             # Dev = {} is the code as it is now (both deviations were repaired by a fix: commit); the
@@ -153,7 +153,7 @@ def model_check_batch(ctx, invariants, expect_violation_with_devs=None, live=Tru
                 if devs and not (with_devs and thorough):
                     continue
                 c = write_cfg(ctx, "mc.cfg", MC_CFG % (np_, nr, q, b, nf, ns, bud, variant, _q(devs), "Spec", inv_line))
-                r = tlc.tlc("BatchProcessor", c, rundir=ctx.rundir.path, workers=12, timeout_s=2400 if thorough else 420,
+                r = tlc.tlc("BatchProcessor", c, rundir=ctx.rundir.path, workers=12, timeout_s=1200 if thorough else 420,
                             xmx="20g", coverage=False, tag="mcb")
                 name = "BatchProcessor %s P%dx%d Q%d B%d F%d S%d budget%d Dev=%s" % (variant, np_, nr, q, b, nf, ns, bud, "asimpl" if devs else "{}")
                 ctx.add_tlc(name, r)
